@@ -1,2 +1,49 @@
-From SV Require Import Dir.
-Theorem C19_placeholder : True. Proof. exact I. Qed.
+(* C19 - Directory and pack discovery finds exactly the right simfiles.  Statements only.
+   Listings are inputs of the model (names in listdir order); os.listdir, PyFilesystem and path
+   algebra are not modelled - the correspondence check exercises them on real directories. *)
+From Coq Require Import List ZArith NArith Bool.
+From SV Require Import Sx Str Simfile Dir Generated.Tables Proofs.DirFacts.
+Import ListNotations.
+Open Scope N_scope.
+
+(* a name is an .ssc / .sm file exactly by its ending, in any letter case *)
+Theorem C19_kind_by_lowercase_ending : forall item,
+  match_ext item Tables.ext_simfile = if is_ssc item then Some eSSC else if is_sm item then Some eSM else None.
+Proof. exact match_ext_cases. Qed.
+Print Assumptions C19_kind_by_lowercase_ending.
+
+(* sm / ssc path = first listed entry of that kind; DuplicateSimfileError iff two of one kind and not ignoring *)
+Theorem C19_dir_paths : forall l ignore_dup,
+  simfile_directory l ignore_dup =
+  if ignore_dup || (Nat.leb (cnt is_sm l) 1 && Nat.leb (cnt is_ssc l) 1)
+  then DOk (find is_sm l, find is_ssc l) else DDuplicate.
+Proof. exact dir_paths. Qed.
+Print Assumptions C19_dir_paths.
+
+(* open() reads the SSC in preference to the SM, FileNotFoundError when there is neither *)
+Theorem C19_prefers_ssc : forall l ignore_dup sm ssc,
+  simfile_directory l ignore_dup = DOk (sm, ssc) ->
+  dir_open_target l ignore_dup = match ssc, sm with Some x, _ => DOk x | None, Some x => DOk x | None, None => DNotFound end.
+Proof. exact open_prefers_ssc. Qed.
+Print Assumptions C19_prefers_ssc.
+
+(* a pack lists exactly its immediate sub-directories that directly contain a simfile, in listing
+   order, each once: never loose files (no listing), never directories without simfiles *)
+Theorem C19_pack_exact : forall es, pack_dirs es = map fst (filter is_member es).
+Proof. exact pack_exact. Qed.
+Print Assumptions C19_pack_exact.
+
+Theorem C19_member_iff : forall listing,
+  has_simfile listing = true <-> exists item, In item listing /\ (is_ssc item = true \/ is_sm item = true).
+Proof. exact has_simfile_iff. Qed.
+Print Assumptions C19_member_iff.
+
+Definition n (s : list N) : str := s.
+Example C19_example :
+  simfile_directory [n [97;46;83;77]; n [98;46;115;109;46;111;108;100]; n [99;46;83;115;67]; n [100;46;115;109]] true
+    = DOk (Some (n [97;46;83;77]), Some (n [99;46;83;115;67])) /\
+  simfile_directory [n [97;46;83;77]; n [100;46;115;109]] false = DDuplicate /\
+  dir_open_target [n [115;109]; n [120;46;115;115;99;97]] false = DNotFound /\
+  pack_dirs [(n [65], Some [n [97;46;115;109]]); (n [108;111;111;115;101;46;115;109], None); (n [66], Some [n [97;46;116;120;116]]); (n [67], Some [n [88;46;83;83;67]])]
+    = [n [65]; n [67]].
+Proof. vm_compute. repeat split; reflexivity. Qed.
